@@ -39,7 +39,7 @@ impl Observer for Obs {
 }
 
 pub fn run(run: &mut Run) -> &'static str {
-    let cases = run.tier.pick(500_000, 10_000_000);
+    let cases = run.tier.pick(1_200_000, 10_000_000);
     run.proptest_part("histories", RULE, hist_case(4..200), cases, |case: &HistCase, st: &mut Stats| {
         let mut obs = Obs;
         let mut cfg = Config::search_like(60);
@@ -55,6 +55,13 @@ pub fn run(run: &mut Run) -> &'static str {
         }
         Ok(())
     });
+    let crashes: Vec<HistCase> = super::fuzzglue::campaign(run, "histories", 400_000, 12, 400).into_iter().map(HistCase::Tape).collect();
+    if !crashes.is_empty() {
+        run.exhaustive_part("fuzz_crashes", RULE, crashes, |case: &HistCase, st: &mut Stats| {
+            let mut obs = Obs;
+            interpret(case, &Config::search_like(60), st, &mut obs).map(|_| ())
+        });
+    }
     let cases = run.tier.pick(320, 6_000);
     run.proptest_part("long_histories", RULE, hist_case(400..1500), cases, |case: &HistCase, st: &mut Stats| {
         let mut obs = Obs;
